@@ -26,11 +26,15 @@ MANIFEST = dict(
           "leap_seconds y m equals the IERS count (27 insertion dates typed in Spec/IERS.lean) for EVERY integer year "
           "and month 1..12, is monotone and constant after 2017-01; the constructor with utc=True adds exactly "
           "(32.184 + 10 + iers)/86400 day from 1972-01-01 and nothing before; an explicit non-zero leap_seconds replaces "
-          "the table value; Delta-T stays within 3.5 s of 42.184 s + leap seconds for every month 1972..2018 and jumps "
-          "by < 1 s at every segment joint after -500 (kernel-evaluated on the rational model). The model is tied to "
-          "/repo by running its binary64 and exact instantiations against the real code over the whole finite domain of "
-          "the property already in the quick tier (every (year, month) 1950..2100 x 3 days x 3 times, every override "
-          "0..60, Delta-T for every month -2000..3000) plus the seconds around every leap-second insertion."),
+          "the table value (the clause is false at leap_seconds=0: counterexample theorem + known finding); "
+          "get_date(utc=True) of an epoch built with utc=True returns the civil date-time EXACTLY for every date "
+          "1972..9998 and every time of day, incl. the seconds around a leap second; the same with an explicit "
+          "leap_seconds in both directions; Delta-T stays within 3.5 s of 42.184 s + leap seconds for every month "
+          "1972..2018 and jumps by < 1 s at every segment joint after -500 (kernel-evaluated on the rational model). "
+          "The model is tied to /repo by running its binary64 and exact instantiations against the real code over the "
+          "whole finite domain of the property already in the quick tier (every (year, month) 1950..2100 x 3 days x 3 "
+          "times, every override 0..60, Delta-T for every month -2000..3000) plus the seconds around every leap-second "
+          "insertion; the 1 ms read-back clause on binary64 is covered by these runs, not by a theorem."),
     note=("Trusted: Lean kernel, Mathlib, axioms propext/Classical.choice/Quot.sound; the hand-written model and its "
           "correspondence run; Spec/IERS.lean (the IERS list); idealisation binary64 -> Rat checked by (I) with the 1 ms "
           "tolerance of the property. local=True / Epoch.utc2local() (wall clock) not modelled; int year and month only."),
